@@ -66,6 +66,9 @@ pub struct SimConfig {
     pub fail_write_at: Option<u32>,
     #[serde(default)]
     pub fail_read_at: Option<u32>,
+    /// only that one read fails (a transient error); default: that read and every later one
+    #[serde(default)]
+    pub fail_read_once: bool,
     /// Only reads of this process from descriptor 0 are counted (None: all).
     #[serde(default)]
     pub fail_read_stdin_of: Option<i32>,
@@ -87,6 +90,7 @@ impl Default for SimConfig {
             crash_max: 0,
             fail_write_at: None,
             fail_read_at: None,
+            fail_read_once: false,
             fail_read_stdin_of: None,
         }
     }
@@ -286,7 +290,7 @@ impl SimHook for SimCtl {
             let k = self.file_read_count.get() + 1;
             self.file_read_count.set(k);
             // (the device is gone: this read and every later one fail)
-            if self.cfg.fail_read_at.is_some_and(|at| k >= at) {
+            if self.cfg.fail_read_at.is_some_and(|at| if self.cfg.fail_read_once { k == at } else { k >= at }) {
                 self.count("eio");
                 self.fault();
                 self.record(pid.0, "eio", k as i64, fd.0 as i64, "");
